@@ -79,31 +79,42 @@ NextCut(cs, last) == IF \E s \in Cuts(cs) : s > last
                      THEN CHOOSE s \in Cuts(cs) : s > last /\ \A t \in Cuts(cs) : t > last => s <= t
                      ELSE 0
 
+\* ---------------------------------------------------------------- the clauses on ONE observation (no run state: shared by the
+\* phase automaton below and by the history layer FlashEncHist, where every export of one object is held against them)
+\* record o.j unwraps authentic (RFC 3394 IV / tag), with a valid CRC, to exactly the configured context
+BlobOK(cs, o) ==
+  /\ o.authOk /\ o.crcOk
+  /\ o.j \in 1..Len(cs.regs)
+  /\ LET r == cs.regs[o.j] IN
+       /\ o.lo = Addr(cs, r.lo * cs.C) /\ o.hi = Addr(cs, (r.hi + 1) * cs.C - 1)
+       /\ o.vld = r.vld /\ o.ade = r.ade
+       /\ o.keyOk /\ o.ctrOk /\ o.attrOk
+FillerOK(cs, o) == o.j > Len(cs.regs) /\ ~o.vld
+\* the engine read cell k: address, byte count, selected context, decryption, cipher input as the engine has them; output = plaintext
+CellOK(cs, k, o) ==
+  /\ o.k = k
+  /\ LET x == ExpCell(cs, k) IN o.a = x.a /\ o.n = x.n /\ o.ctx = x.ctx /\ o.dec = x.dec /\ o.inp = x.inp
+  /\ (Asserted(cs, k) => o.ok)
+
 \* ---------------------------------------------------------------- actions (o = what was observed)
 Keep == UNCHANGED c
 \* the ROM unwraps record j: authentic (RFC 3394 IV / tag), CRC valid, and it carries exactly the configured context
 LoadBlob(o) ==
   /\ phase = "load" /\ loaded < c.nrec /\ o.j = loaded + 1
-  /\ o.authOk /\ o.crcOk
-  /\ o.j <= Len(c.regs)
-  /\ LET r == c.regs[o.j] IN
-       /\ o.lo = Addr(c, r.lo * c.C) /\ o.hi = Addr(c, (r.hi + 1) * c.C - 1)
-       /\ o.vld = r.vld /\ o.ade = r.ade
-       /\ o.keyOk /\ o.ctrOk /\ o.attrOk
+  /\ BlobOK(c, o)
   /\ loaded' = loaded + 1 /\ UNCHANGED <<phase, pc>> /\ Keep
 \* records that exist only to fill the table must not create a context
 LoadFiller(o) ==
   /\ phase = "load" /\ loaded < c.nrec /\ o.j = loaded + 1
-  /\ o.j > Len(c.regs) /\ ~o.vld
+  /\ FillerOK(c, o)
   /\ loaded' = loaded + 1 /\ UNCHANGED <<phase, pc>> /\ Keep
 EndLoad(o) ==
   /\ phase = "load" /\ loaded = c.nrec /\ o.n = c.nrec
   /\ phase' = "fetch" /\ pc' = FirstCell(c) /\ UNCHANGED loaded /\ Keep
 
 FetchCommon(o) ==
-  /\ phase = "fetch" /\ pc \in ImgCells(c) /\ o.k = pc
-  /\ LET x == ExpCell(c, pc) IN o.a = x.a /\ o.n = x.n /\ o.ctx = x.ctx /\ o.dec = x.dec /\ o.inp = x.inp
-  /\ (Asserted(c, pc) => o.ok)
+  /\ phase = "fetch" /\ pc \in ImgCells(c)
+  /\ CellOK(c, pc, o)
   /\ pc' = pc + 1 /\ UNCHANGED <<phase, loaded>> /\ Keep
 FetchDecrypt(o) == Dec(c, pc) /\ Asserted(c, pc) /\ FetchCommon(o)            \* inside an enabled range: engine output = plaintext
 FetchUnsettled(o) == Dec(c, pc) /\ ~Asserted(c, pc) /\ FetchCommon(o)         \* engine behaviour not documented: selection, address, cipher input only
